@@ -5,8 +5,73 @@ package config
 // Contracts for the goverif VC generator (/verif). Comment-only file: it adds no code.
 
 //@ type Config guarded_by mutex: properties, fileRefSet, values
+// an app's value table and its file-reference table are created together (Define, Set)
+//@ type Config invariant forallstr(a, imp(len(self.values[a]) != 0, self.fileRefSet[a] != nil))
+//@ type Config invariant imp(len(self.values) != 0, self.fileRefSet != nil)
 
 // Config.Get converts the stored value to the requested data type (trusted; C25/C13 look inside).
 //@ func (*Config).Get [C33] trusted
 //@   modifies nothing
 //@   ensures imp(result1 == nil && dataType == "bool", typeis(result, bool))
+
+// ---- C25: config scoping ---------------------------------------------------------------------------------
+// A local table (global != nil) always parents to THE global table and starts with no values of its own.
+//@ func newConfiguration [C25]
+//@   fresh
+//@   modifies nothing
+//@   ensures result != nil && fresh(result) && result.global == global
+//@   ensures forallstr(a, result.values[a] == nil) && forallstr(a, result.properties[a] == nil)
+
+//@ func (*Config).Copy [C25]
+//@   requires conf != nil
+//@   fresh
+//@   modifies nothing
+//@   ensures result != nil && fresh(result) && result.global == ite(conf.global == nil, conf, conf.global)
+//@   ensures forallstr(a, result.values[a] == nil) && forallstr(a, result.properties[a] == nil)
+
+// ExistsAndGlobal reports what the table said while the read lock was held.
+//@ func (*Config).ExistsAndGlobal [C25]
+//@   requires conf != nil
+//@   modifies nothing
+//@   ensures exists == old@lock1(conf.properties[app] != nil && !streq(conf.properties[app][key].DataType, "") && !streq(conf.properties[app][key].Description, ""))
+//@   ensures global == (exists && old@lock1(conf.properties[app][key].Global))
+
+// Set: a local table forwards the option to the global table exactly when the global table does not
+// define it or declares it Global; otherwise every write goes through the RECEIVER's own tables
+// (conf.values / conf.fileRefSet), never through conf.global.
+//@ func (*Config).Set [C25]
+//@   check none
+//@   inst app
+//@   requires conf != nil
+//@   at call (*Config).ExistsAndGlobal#1 assert conf.global != nil && arg0 == conf.global && arg1 == app && arg2 == key
+//@   at call (*Config).Set#1 assert conf.global != nil && (!exists || global) && arg0 == conf.global && arg1 == app && arg2 == key && arg3 == value && arg4 == fileRef
+//@   at store map#1 assert arg0 == conf.fileRefSet[app] && arg1 == key && arg2 == fileRef
+//@   at store map#2 assert arg0 == conf.fileRefSet[app] && arg1 == key && arg2 == fileRef
+//@   at store map#3 assert arg0 == conf.values && arg1 == app && fresh(arg2)
+//@   at store map#4 assert arg0 == conf.fileRefSet && arg1 == app && fresh(arg2)
+//@   at store map#5 assert arg0 == conf.fileRefSet[app] && arg1 == key && arg2 == fileRef
+//@   at store map#6 assert arg0 == conf.values[app] && arg1 == key && arg2 == value
+//@   at store values#1 assert fresh(conf.values)
+//@   at store fileRefSet#1 assert fresh(conf.fileRefSet)
+//@   ensures imp(conf.global != nil && exists && !global && old@lock1(conf.properties[app][key].Dynamic.SetDynamic == nil && conf.properties[app][key].GoFunc.Write == nil), result == nil)
+//@   ensures imp(conf.global != nil && exists && !global && old@lock1(conf.properties[app][key].Dynamic.SetDynamic == nil && conf.properties[app][key].GoFunc.Write == nil), conf.values[app][key] == value)
+//@   ensures imp(conf.global != nil && exists && !global && old@lock1(conf.properties[app][key].Dynamic.SetDynamic == nil && conf.properties[app][key].GoFunc.Write == nil), conf.fileRefSet[app][key] == fileRef)
+
+// GetFileRef: a local table answers from its OWN value if it has one; otherwise, having no definition
+// of its own, it asks the global table; the global table answers with the stored value, else the default.
+//@ func (*Config).GetFileRef [C25]
+//@   check none
+//@   requires conf != nil
+//@   at call ConvertGoType#1 assert conf.global != nil && arg0 == old@lock1(conf.values[app][key]) && arg0 != nil && arg1 == dataType
+//@   at call (*Config).GetFileRef#1 assert conf.global != nil && arg0 == conf.global && arg1 == app && arg2 == key && arg3 == dataType
+//@   at call (*Config).GetFileRef#1 assert old@lock1(conf.values[app] == nil || conf.values[app][key] == nil)
+//@   at call ConvertGoType#2 assert arg1 == dataType && old@lock1(conf.global == nil || conf.values[app] == nil || conf.values[app][key] == nil)
+//@   at call ConvertGoType#2 assert imp(old@lock1(conf.properties[app][key].Dynamic.GetDynamic == nil && conf.properties[app][key].GoFunc.Read == nil), arg0 == old@lock1(ite(conf.values[app][key] != nil, conf.values[app][key], conf.properties[app][key].Default)))
+
+// Default: the declared default is read from the global table and set in the scope where it runs.
+//@ func (*Config).Default [C25]
+//@   check none
+//@   requires conf != nil
+//@   at call (*Config).ExistsAndGlobal#1 assert arg0 == ite(conf.global == nil, conf, conf.global) && arg1 == app && arg2 == key
+//@   at call (*Config).Set#1 assert exists && arg0 == conf && arg1 == app && arg2 == key && arg4 == fileRef
+//@   at call (*Config).Set#1 assert arg3 == old@lock1(c.properties[app][key].Default) && c == ite(conf.global == nil, conf, conf.global)
